@@ -152,6 +152,25 @@ CHECKS = {
         note="the all-depths theorem is over a finite table; the table is tied exhaustively for D 1..3 (4 in thorough) and int "
              "elements, other element types are assumed not to change overload resolution; g++ 12; nine view-forming operations "
              "that lose mutability from a mutable receiver and const_iterator::base() are recorded known findings"),
+    "C12": dict(
+        text="Coq theorems (all ranks/extents/strides/operation sequences/index tuples of zero-based views reachable by the C01 view "
+             "algebra, via the lay_ok invariant which every projection is shown to preserve): member_cast addresses exactly byte "
+             "offsetof(member) of each source element with the source's shape (C12_member_cast_addr); reinterpret_array_cast<U>() "
+             "keeps every element's address and shape, incl. the separate rank-1 code (C12_reinterpret_addr/_same_size); "
+             "reinterpret_array_cast<U>(n) appends extension [0,n) and element (idx,j) is at byte j*sizeof(U) of element idx "
+             "(C12_reinterpret_extra_dim); element_transformed has the source's shape, reads f(source element) at access time and "
+             "writes through a reference-returning projection changing only that sub-object (C12_transformed, "
+             "C12_transformed_write_through); static/const_array_cast and as_const keep layout and base (C12_cast_identity); "
+             "projections commute with every C01 operation (C12_compose, C12_compose_extra_dim, C12_compose_ops); an array "
+             "constructed from a view/projection has the source's extents and element idx = conv(source element idx) "
+             "(C12_convert_construct). Tie: generated projection programs over struct and complex elements: shape after every step, "
+             "value and byte offset of &proj[idx], root words modified by writes through projections, laziness, constructed arrays.",
+        design_ref="5/C12", technique="Coq proof (scale lemmas on the C01 layout invariant, simulation through step_ok for composition, "
+                                      "row-major successor invariant for the flat copy) + extracted-model vs library differential on "
+                                      "projection programs, compile-time probe, sanitizer run and vm_compute cross-check (thorough)",
+        note="addresses are proved, the identification of the object at an address with the member/sub-object is the C++ object "
+             "model and is observed (values compared word by word), not proved; zero-based views only (C19 for index bases), raw "
+             "pointers and transform_ptr only (C11 for others); no 64-bit overflow; g++ 12/libstdc++, x86-64 little endian"),
 }
 
 NOT_YET = {
